@@ -7,15 +7,22 @@ INFO = {
                "capacity; a full sorter evicts the newest row of the worst key in both directions and emits FIFO; "
                "end-of-input and start pass through the limiter (and every other stage) to the buffering stages "
                "behind it, exactly once; Master::go reaches complete on every non-error path; the limiter sits "
-               "between sort and group/merge.",
-    "not_decided": "The limiter's counter arithmetic (skipped/passed and the >= comparison), i.e. that exactly rows "
-                   "S..S+T-1 pass - a property of run-time values.",
+               "between sort and group/merge. The limiter itself, extracted as a finite machine by partial evaluation of "
+               "its process() body and composed exhaustively for skip 0..3 x take none/0..3 over streams of 9 rows, "
+               "forwards exactly rows S..S+T-1 and answers Break exactly when the T-th row was forwarded; the sorter's "
+               "top-N budget is spent only by rows that are actually stored (key present), one slot per row, and a "
+               "full sorter evicts exactly one row after inserting.",
+    "not_decided": "The limiter's behaviour beyond the explored parameters (skip, take <= 3, streams of 9 rows) as a "
+                   "run-time statement, and that the rows the sorter hands over are the S+T smallest (the comparator's "
+                   "value logic).",
     "trusted": ["sa/tables/pipeline_order.toml"],
 }
 
 
 def run(ctx, rep):
     lib = ctx.lib
+    P.limiter_machine(rep, lib)
+    P.sorter_slot(rep, lib)
     P.capacity(rep, lib)
     P.topn_adjacent(rep, lib)
     P.evict(rep, lib)
